@@ -211,12 +211,12 @@ class C20(Machine):
         self.name = name
         self.mode = name.split(":")[1]
         if self.mode == "sweep":
-            self.runs = {"quick": 160, "thorough": 4000}
+            self.runs = {"quick": 640, "thorough": 16000}
             self.batch = 2
             self.rule = ("K1: every truncation offset of a seeded valid document read through a seeded route; distinct = "
                          "(document template, route, fault kind, outcome class) with the fault inside a statement")
         else:
-            self.runs = {"quick": 1600, "thorough": 60000}
+            self.runs = {"quick": 8000, "thorough": 300000}
             self.batch = 20
             self.rule = ("K2/K3/K4: 30 seeded single/double edits, bit flips and token-soup texts per valid document; distinct = "
                          "(document template, route, fault kind, outcome class)")
